@@ -25,6 +25,7 @@
 package workflow
 
 import (
+	"github.com/AliceO2Group/Control/common/verifhook"
 	"github.com/AliceO2Group/Control/core/task/sm"
 
 	"sync"
@@ -54,6 +55,7 @@ func aggregateState(roles []Role) (s sm.State) {
 		}
 		s = s.X(c.GetState())
 	}
+	verifhook.Point("merge.computed", "kind", "state", "v", int(s))
 	return
 }
 
@@ -73,9 +75,11 @@ func (t *SafeState) merge(s sm.State, r Role) {
 
 	switch {
 	case s == sm.MIXED && t.state != sm.ERROR:
+		verifhook.Point("merge.computed", "kind", "state", "v", int(sm.MIXED))
 		t.state = sm.MIXED
 		return
 	case s == sm.ERROR:
+		verifhook.Point("merge.computed", "kind", "state", "v", int(sm.ERROR))
 		t.state = sm.ERROR
 		return
 	default:
